@@ -24,6 +24,8 @@ double *G_pc;          /* entry value of the coordinate pointer a loop advances 
 double G_a, G_b, G_c, G_d;   /* entry values of lattice vector components / of coordinate GK */
 uint64_t GI, GJ;                /* ghost lattice indices: arbitrary, never assigned */
 uint64_t G_t0;               /* entry value of a kind tag */
+/* a finite number */
+#define FIN(x) ((x) >= -DBL_MAX && (x) <= DBL_MAX)
 double G_ca, G_sa;   /* cos / sin of the angle argument (uninterpreted), taken at entry */
 /* scale about a centre: (p - c) * s + c */
 #define S_AX(p, c, s) VF_FADD(VF_FMUL(VF_FSUB(p, c), s), c)
